@@ -67,6 +67,7 @@ type Exec struct {
 	inlineStack []string
 	retObjs  []types.Object
 	assuming     bool
+	nref         int
 	openCaptured bool
 	litPos       token.Pos
 }
@@ -104,6 +105,15 @@ func (x *Exec) declFun(name string, args []Sort, res Sort) {
 func (x *Exec) fresh(prefix string, s Sort) Term {
 	x.nfresh++
 	return x.declConst(fmt.Sprintf("%s_%d", sanitize(prefix), x.nfresh), s)
+}
+
+// newRef allocates a reference: a concrete negative integer, distinct from null (0), from every
+// other allocation of this unit and from every reference of the pre-state (those are >= 0).
+func (x *Exec) newRef(st *State, prefix string) Term {
+	x.nref++
+	t := Term{fmt.Sprintf("(- %d)", x.nref), SInt}
+	st.names["$fresh:"+t.S] = true
+	return t
 }
 
 // uf applies an uninterpreted function, declaring it on first use.
@@ -179,8 +189,7 @@ func zeroOf(s Sort) Term {
 
 func (x *Exec) zeroValue(st *State, t types.Type) Value {
 	if x.isLocStruct(t) {
-		r := x.fresh("zs", SInt)
-		st.assume("(> " + r.S + " 0)")
+		r := x.newRef(st, "zs")
 		x.zeroFields(st, r, t)
 		return r
 	}
@@ -303,7 +312,20 @@ func (x *Exec) fieldRead(st *State, owner types.Type, f *types.Var, ref Term) Te
 	fs := x.sortOf(f.Type())
 	key := x.fieldKey(owner, f)
 	arr := x.heapGet(st, key, arraySort(SInt, fs))
+	if fs == SInt && isRefType(f.Type()) && !x.underBinder(ref.S) {
+		// references stored in the pre-state heap are pre-state references (>= 0)
+		x.declare("(assert (>= (select "+key+"_0 "+ref.S+") 0))", "ax_ref_"+key+":"+ref.S)
+		x.heapGet(newState(), key, arraySort(SInt, fs))
+	}
 	return Term{"(select " + arr.S + " " + ref.S + ")", fs}
+}
+
+func isRefType(t types.Type) bool {
+	switch t.Underlying().(type) {
+	case *types.Pointer, *types.Slice, *types.Map, *types.Chan, *types.Interface, *types.Signature:
+		return true
+	}
+	return false
 }
 
 func (x *Exec) fieldWrite(st *State, owner types.Type, f *types.Var, ref Term, v Term) {
@@ -314,7 +336,12 @@ func (x *Exec) fieldWrite(st *State, owner types.Type, f *types.Var, ref Term, v
 }
 
 func (x *Exec) subRef(owner types.Type, f *types.Var, ref Term) Term {
-	return x.uf("sub_"+typeName(owner)+"_"+f.Name(), SInt, ref)
+	t := x.uf("sub_"+typeName(owner)+"_"+f.Name(), SInt, ref)
+	if !x.underBinder(ref.S) {
+		// a sub-location belongs to the same generation (pre-state / allocated here) as its owner
+		x.declare("(assert (= (>= "+ref.S+" 0) (>= "+t.S+" 0)))", "ax_sub:"+t.S)
+	}
+	return t
 }
 
 // copyStruct copies every field of the struct stored at src into dst.
@@ -368,9 +395,8 @@ func (x *Exec) slen(h Term) Term {
 }
 
 func (x *Exec) newSlice(st *State, n Term, es Sort, arr *Term) Term {
-	h := x.fresh("sl", SInt)
+	h := x.newRef(st, "sl")
 	st.names["$fresh:"+h.S] = true
-	st.assume("(> " + h.S + " 0)")
 	st.assume("(= " + x.slen(h).S + " " + n.S + ")")
 	if arr != nil {
 		x.sliceSetArr(st, h, es, *arr)
@@ -1198,8 +1224,7 @@ func (x *Exec) evalComposite(e *ast.CompositeLit, st *State) (Value, types.Type)
 		if !x.isLocStruct(t) {
 			return x.fresh("opaque", SInt), t
 		}
-		r := x.fresh("obj", SInt)
-		st.assume("(> " + r.S + " 0)")
+		r := x.newRef(st, "obj")
 		st.names["$fresh:"+r.S] = true
 		set := map[int]bool{}
 		for i, el := range e.Elts {
@@ -1261,8 +1286,7 @@ func (x *Exec) evalComposite(e *ast.CompositeLit, st *State) (Value, types.Type)
 			has = Term{"(store " + has.S + " " + k.S + " true)", has.Sort}
 			val = Term{"(store " + val.S + " " + k.S + " " + v.S + ")", val.Sort}
 		}
-		m := x.fresh("map", SInt)
-		st.assume("(> " + m.S + " 0)")
+		m := x.newRef(st, "map")
 		x.mapSet(st, m, ks, vs, has, val)
 		return m, t
 	}
